@@ -1,4 +1,4 @@
-import Pearl.Model.Store
+import Pearl.Model.Ops
 /-
 Line protocol shared by the Rust harness and the model driver (DESIGN Appendix B).
 One script line in, one observation line out.
@@ -84,17 +84,16 @@ def step (s : Store) (line : String) : Store × String :=
   match line.trimAscii.toString.splitOn " " with
   | "cfg" :: toks =>
     let dup := toks.any (fun t => t == "dup=1")
-    (({ allowDup := dup } : Store).createActive, "ok")
+    (Store.init dup, "ok")
   | ["w", k, ts, m, len, seed] =>
     match hexNat k, ts.toNat?, parseMeta m, len.toNat?, seed.toNat? with
     | some k, some ts, some m, some len, some seed =>
-      (s.write k ts m ⟨len, if len == 0 then 0 else seed⟩, "ok")
+      (s.apply (.write k ts m ⟨len, if len == 0 then 0 else seed⟩), "ok")
     | _, _, _, _, _ => (s, "bad-op")
   | ["d", k, ts, m, oip] =>
     match hexNat k, ts.toNat?, parseMeta m, oip.toNat? with
     | some k, some ts, some m, some oip =>
-      let (s', n) := s.delete k ts m (oip != 0)
-      (s', s!"n={n}")
+      (s.apply (.delete k ts m (oip != 0)), s!"n={(s.delete k ts m (oip != 0)).2}")
     | _, _, _, _ => (s, "bad-op")
   | ["r", k] =>
     match hexNat k with
@@ -118,20 +117,20 @@ def step (s : Store) (line : String) : Store × String :=
     | none => (s, "bad-op")
   | ["close_active"] =>
     match s.closeActive with
-    | .ok s' => (s', "ok")
+    | .ok _ => (s.apply .closeActive, "ok")
     | .error e => (s, showErr e)
   | ["create_active"] =>
     match s.tryCreateActive with
-    | .ok s' => (s', "ok")
+    | .ok _ => (s.apply .createActive, "ok")
     | .error e => (s, showErr e)
   | ["restore_active"] =>
     match s.restoreActive with
-    | .ok s' => (s', "ok")
+    | .ok _ => (s.apply .restoreActive, "ok")
     | .error e => (s, showErr e)
-  | ["settle"] => (s.settle, "ok")
+  | ["settle"] => (s.apply .settle, "ok")
   | ["counts"] => (s, showCounts s)
-  | ["restart"] => (s.restart false, "ok")
-  | ["restart", "lazy"] => (s.restart true, "ok")
+  | ["restart"] => (s.apply (.restart false), "ok")
+  | ["restart", "lazy"] => (s.apply (.restart true), "ok")
   | _ => (s, "bad-op")
 
 end Pearl.Script
